@@ -433,7 +433,9 @@ register("C15", {
             "exception at every network operation index (asyncio and threads); (d) invalid "
             "requests from the caller; (e) proxy replies; at L2 the native exceptions of anyio, trio "
             "and the socket / ssl modules (a failed handshake is an SSLError, an EOF or a reset); "
-            "every other HTTP/2 corruption base multiplexes 2-3 streams; oracle = class of every exception reaching the caller "
+            "every other HTTP/2 corruption base multiplexes 2-3 streams; (f) C12's multiplexed "
+            "workload (stream resets, SETTINGS changes, early closes, one cancelled caller) "
+            "and concurrent requests with awaiting trace callbacks; oracle = class of every exception reaching the caller "
             "(request call, body reads, close) is a documented httpcore exception, coarse cause "
             "match, termination; all runs but the dry runs are non-trivial",
     "assumptions": ["the L2 families run the real AnyIOBackend and TrioBackend (through "
